@@ -135,7 +135,7 @@ pub fn enumerate(which: &str, thorough: bool) -> Vec<Point> {
         "C19" => vec!['A', 'C', 'N'],
         _ => vec!['C', 'E', 'N', 'A'],
     };
-    let sizes: Vec<usize> = if thorough { vec![17, 8193] } else { vec![17] };
+    let sizes: Vec<usize> = if thorough { vec![1, 17, 8193, 70_000] } else { vec![17, 8193] };
     let umasks: Vec<u32> = if which == "C19" { vec![0o000, 0o022, 0o077] } else { vec![0o022] };
     let with_nodir = which == "C15";
     for w in &writers {
